@@ -65,27 +65,41 @@ func (h *History) Add(form Form) {
 	if h.max <= len(h.forms) {
 		h.forms = h.forms[len(h.forms)-h.limit:]
 		tmp := fmt.Sprintf("%s.tmp", h.filename)
+		verifPoint("history.compact:open:before", tmp)
 		f, err := os.OpenFile(tmp, os.O_APPEND|os.O_CREATE|os.O_WRONLY, 0644)
 		if err != nil {
 			panic(err)
 		}
+		verifPoint("history.compact:open:after", tmp)
 		defer func() { _ = f.Close() }()
 		for _, frm := range h.forms {
 			// Write each line separately to avoid excessive memory use if the
 			// history is long.
+			verifPoint("history.compact:write:before", tmp)
 			if _, err = f.Write(frm.TabAppend(nil)); err != nil {
 				panic(err)
 			}
+			verifPoint("history.compact:write:after", tmp)
 		}
+		verifPoint("history.compact:close:before", tmp)
 		_ = f.Close()
+		verifPoint("history.compact:close:after", tmp)
+		verifPoint("history.compact:rename:before", tmp)
 		if err := os.Rename(tmp, h.filename); err != nil {
 			panic(err)
 		}
+		verifPoint("history.compact:rename:after", h.filename)
 	} else {
+		verifPoint("history.add:open:before", h.filename)
 		f, err := os.OpenFile(h.filename, os.O_APPEND|os.O_CREATE|os.O_WRONLY, 0644)
+		defer verifPoint("history.add:close:after", h.filename)
 		defer func() { _ = f.Close() }()
+		defer verifPoint("history.add:close:before", h.filename)
+		verifPoint("history.add:open:after", h.filename)
 		if err == nil {
+			verifPoint("history.add:write:before", h.filename)
 			_, err = f.Write(form.TabAppend(nil))
+			verifPoint("history.add:write:after", h.filename)
 		}
 		if err != nil {
 			panic(err)
@@ -96,14 +110,20 @@ func (h *History) Add(form Form) {
 // Clear the stash entries in the range specified..
 func (h *History) Clear(start, end int) {
 	h.clear(start, end)
+	verifPoint("history.clear:truncate:before", h.filename)
 	f, err := os.OpenFile(h.filename, os.O_TRUNC|os.O_APPEND|os.O_CREATE|os.O_WRONLY, 0644)
 	if err != nil {
 		panic(err)
 	}
+	verifPoint("history.clear:truncate:after", h.filename)
+	defer verifPoint("history.clear:close:after", h.filename)
 	defer func() { _ = f.Close() }()
+	defer verifPoint("history.clear:close:before", h.filename)
 	for _, frm := range h.forms {
+		verifPoint("history.clear:write:before", h.filename)
 		if _, err = f.Write(frm.TabAppend(nil)); err != nil {
 			panic(err)
 		}
+		verifPoint("history.clear:write:after", h.filename)
 	}
 }
